@@ -1,0 +1,5 @@
+//go:build !verif
+
+package sse
+
+func verifEvent(ev string, id int64, key any, data string) {}
